@@ -208,9 +208,9 @@ SPEC = {
     'is_x509': ('r', '''        ensures r == !is_user_pass_user(*self),'''),
     'supports_user_token_id': ('r', '''        ensures r == self.user_token_ids.ids().contains(id@),'''),
     'supports_anonymous': ('r', '''        ensures r == self.user_token_ids.ids().contains(ANONYMOUS_USER_TOKEN_ID@),'''),
-    'supports_user_pass': ('r', '''        ensures r == (exists|k: int| 0 <= k < self.user_token_ids.ids().len() && #[trigger] self.user_token_ids.ids()[k] != ANONYMOUS_USER_TOKEN_ID@
+    'supports_user_pass': ('r', '''        ensures r ==> (exists|k: int| 0 <= k < self.user_token_ids.ids().len() && #[trigger] self.user_token_ids.ids()[k] != ANONYMOUS_USER_TOKEN_ID@
                 && server_tokens.map().contains_key(self.user_token_ids.ids()[k]) && is_user_pass_user(server_tokens.map()[self.user_token_ids.ids()[k]])),'''),
-    'supports_x509': ('r', '''        ensures r == (exists|k: int| 0 <= k < self.user_token_ids.ids().len() && #[trigger] self.user_token_ids.ids()[k] != ANONYMOUS_USER_TOKEN_ID@
+    'supports_x509': ('r', '''        ensures r ==> (exists|k: int| 0 <= k < self.user_token_ids.ids().len() && #[trigger] self.user_token_ids.ids()[k] != ANONYMOUS_USER_TOKEN_ID@
                 && server_tokens.map().contains_key(self.user_token_ids.ids()[k]) && !is_user_pass_user(server_tokens.map()[self.user_token_ids.ids()[k]])),'''),
     'authenticate_anonymous_token': ('r', '''        ensures
             // anonymous access only where the endpoint allows it
